@@ -38,6 +38,7 @@ def generate(rng, tier):
         "p_adapters": 1.0, "require_named": True, "force_info": True, "upper_only": True, "shorten_before_adapter": False,
         "p_demux": 0.05, "p_revcomp": 0.2, "p_pair_adapters": 0.12, "p_filters": 0.3, "p_rename": 0.1,
         "p_minimal_report": 0.0, "times": (1, 3), "p_stdout": 0.0, "n_records": (0, 40), "revcomp_single_only": True,
+        "p_same_name": 0.08, "same_name_without_demux": True,
     })
 
 
@@ -59,16 +60,81 @@ def info_path(case, outs=None):
     return C._optval(outs or case["outs"], "--info-file")
 
 
-def tally_info(rows, json_adapters):
-    """adapter name -> dict(five, three, adjacent, rc, total)"""
-    kinds = {}
+class Ambiguous(Exception):
+    pass
+
+
+_IUPAC = {"A": "A", "C": "C", "G": "G", "T": "T", "U": "T", "R": "AG", "Y": "CT", "S": "CG", "W": "AT", "K": "GT", "M": "AC",
+          "B": "CGT", "D": "AGT", "H": "ACT", "V": "ACG", "N": "ACGTN", "X": ""}
+
+
+def _fit_distance(seg, adapter, free_start, free_end):
+    """Edit distance between the whole of `seg` and the adapter, of which a prefix (free_start) and/or
+    a suffix (free_end) may be left out at no cost; adapter wildcards match their bases."""
+    n, m = len(seg), len(adapter)
+    prev = [0 if free_start else j for j in range(m + 1)]
+    for i in range(1, n + 1):
+        cur = [i] + [0] * m
+        c = seg[i - 1]
+        for j in range(1, m + 1):
+            hit = c in _IUPAC.get(adapter[j - 1], adapter[j - 1])
+            cur[j] = min(prev[j - 1] + (0 if hit else 1), prev[j] + 1, cur[j - 1] + 1)
+        prev = cur
+    return min(prev) if free_end else prev[m]
+
+
+def assign_uids(json_adapters):
+    """Adapters may share a name; give each a unique key (the name itself when it is unique)."""
+    seen = Counter()
+    total = Counter(a["name"] for a in json_adapters)
     for a in json_adapters:
-        kinds[a["name"]] = ("linked" if a["linked"] else "both" if (a["five_prime_end"] and a["three_prime_end"])
+        a["_occ"] = seen[a["name"]]
+        a["_uid"] = a["name"] if total[a["name"]] == 1 else f"{a['name']}\x00{a['_occ']}"
+        seen[a["name"]] += 1
+
+
+def _attribute(row, candidates):
+    """Which of several same-named adapters a row of the info file belongs to: the one that can
+    have produced this match (position, matched bases, number of errors). When more than one
+    can, the row cannot be judged."""
+    errors, start, end = int(row[1]), int(row[2]), int(row[3])
+    seg = row[5].upper()
+    readlen = len(row[4]) + len(row[5]) + len(row[6])
+    fits = []
+    for a in candidates:
+        ok = False
+        if a["five_prime_end"]:
+            ok = ok or _fit_distance(seg, a["five_prime_end"]["sequence"], start == 0, False) <= errors
+        if a["three_prime_end"]:
+            ok = ok or _fit_distance(seg, a["three_prime_end"]["sequence"], False, end == readlen) <= errors
+        if a["five_prime_end"] and a["three_prime_end"]:
+            ok = ok or _fit_distance(seg, a["five_prime_end"]["sequence"], start == 0, end == readlen) <= errors
+        if ok:
+            fits.append(a["_uid"])
+    if len(fits) != 1:
+        raise Ambiguous(row[7])
+    return fits[0]
+
+
+def tally_info(rows, json_adapters):
+    """adapter key (_uid) -> dict(five, three, adjacent, rc, total)"""
+    kinds = {}
+    by_name = defaultdict(list)
+    if json_adapters and "_uid" not in json_adapters[0]:
+        assign_uids(json_adapters)
+    for a in json_adapters:
+        kinds[a["_uid"]] = ("linked" if a["linked"] else "both" if (a["five_prime_end"] and a["three_prime_end"])
                             else "five" if a["five_prime_end"] else "three")
+        by_name[a["name"]].append(a)
+    for group in by_name.values():
+        if len(group) > 1 and any(a["linked"] for a in group):
+            raise Ambiguous(group[0]["name"])
     t = {n: {"five": defaultdict(Counter), "three": defaultdict(Counter), "adjacent": Counter(), "rc": 0} for n in kinds}
     prev = None
     for f in rows:
         name = f[7]
+        if len(by_name.get(name, ())) > 1:
+            name = _attribute(f, by_name[name])
         errors, start, end = int(f[1]), int(f[2]), int(f[3])
         left, mid, right = f[4], f[5], f[6]
         rc = f[11] == "1"
@@ -117,7 +183,7 @@ def norm(h):
 def compare(name, label, json_adapters, tally, check_rc, any_rc):
     out = []
     for a in json_adapters:
-        t = tally[a["name"]]
+        t = tally[a.get("_uid", a["name"])]
         for end_, key in (("five", "five_prime_end"), ("three", "three_prime_end")):
             want = norm(t[end_])
             got = hist_of(a[key])
@@ -201,7 +267,8 @@ def parse_text_adapters(text):
                 rest = ln[len("No. of allowed errors:") :].strip()
                 sec["allowed"].append(rest if rest else lines[i + 1].strip())
             i += 1
-        out[(which, m.group(2))] = sec
+        occ = sum(1 for key in out if key[0] == which and key[1] == m.group(2))
+        out[(which, m.group(2), occ)] = sec
     return out
 
 
@@ -230,11 +297,11 @@ def compare_text(name, label, which, text_secs, json_adapters, tally):
     """The text report must state the same matches as the tally of applied matches."""
     out = []
     for a in json_adapters:
-        sec = text_secs.get((which, a["name"]))
+        sec = text_secs.get((which, a["name"], a.get("_occ", 0)))
         if sec is None:
             out.append(C.V("text-report-adapter", f"{name}: {label} adapter {a['name']}: no section in the text report"))
             continue
-        t = tally[a["name"]]
+        t = tally[a.get("_uid", a["name"])]
         five, three = norm(t["five"]), norm(t["three"])
         n5 = sum(sum(c.values()) for c in five.values())
         n3 = sum(sum(c.values()) for c in three.values())
@@ -322,6 +389,8 @@ def judge(case, res, name, outs=None, which="adapters_read1", label="R1", jsonpa
         t = tally_info(rows, adapters)
     except fmt.FormatError as e:
         return [C.V("info-unreadable", f"{name}: {e}")], 0
+    except Ambiguous:
+        raise engine.Discard("same-named-adapters-fit-equally")
     out = compare(name, label, adapters, t, check_rc and label == "R1", any_rc)
     if text_res is not None:
         text = text_res.stdout.decode("latin-1") + "\n" + text_res.stderr
@@ -391,8 +460,9 @@ def evaluate(case, ctx):
         viols += v3
         jp = C.load_json_report(par)
         for key in ("adapters_read1", "adapters_read2"):
-            if jp[key] != j[key]:
-                viols.append(C.V("merge", f"par: {key} of the multi-core run differs from the single-core run: {C.json_diff(j[key], jp[key])[:300]}"))
+            d_ = C.json_diff(j[key], jp[key])
+            if d_:
+                viols.append(C.V("merge", f"par: {key} of the multi-core run differs from the single-core run: {d_[:300]}"))
     seen, uniq = set(), []
     for v in viols:
         if v["clause"] not in seen:
